@@ -183,6 +183,9 @@ impl<'a> PrettyPrinter<'a> {
         self.convert_flow_like(ctx, math_frac.to_untyped(), |ctx, node| {
             if let Some(expr) = node.cast::<Expr>() {
                 FlowItem::spaced(self.convert_math_operand(ctx, expr))
+            } else if node.kind() == SyntaxKind::Semicolon {
+                // The terminator of an embedded expression (`$a / #b;$`): detached, it would be math text.
+                FlowItem::tight_spaced(self.convert_trivia_untyped(node))
             } else if node.kind() != SyntaxKind::Space {
                 FlowItem::spaced(self.convert_trivia_untyped(node))
             } else {
